@@ -795,7 +795,7 @@ func (ex *Exec) execLoop(fr *frame, lp *loop) {
 	}
 	if ex.autoInv && st.pc != TFalse && ex.headerCondSymbolic(fr, lp, st) {
 		// safety-only cut: the loop state is arbitrary except that a range index is at least -1
-		spec := &LoopSpec{Key: key}
+		spec := &LoopSpec{Key: key, Auto: true}
 		for _, ins := range h.Instrs {
 			p, ok := ins.(*ssa.Phi)
 			if !ok {
